@@ -3,7 +3,8 @@ from . import cli, streams_par
 
 ID = 'C04'
 PROPS_MODULE = ['Refine.Props.C04']
-STREAMS = [streams_par.GUARDS, streams_par.GATHER_NODE, streams_par.GATHER_CELL, streams_par.ADAPT_ALL_NP,
+STREAMS = [streams_par.GUARDS, streams_par.GATHER_NODE, streams_par.GATHER_CELL, streams_par.GATHER_FILE,
+           streams_par.ADAPT_ALL_NP,
            cli.ADAPT_MPI, cli.ADAPT_MPI_WIDE]
 # the all-np stream already covers np = 2,3,4 in the quick tier; the two wider cli streams run in the thorough tier
 cli.ADAPT_MPI.thorough_only = True
@@ -25,8 +26,9 @@ EXPLANATION = (
     'MPI_Probe / MPI_Iprobe / MPI_Waitany (no_wildcard_receive), so the collective specifications of C17 do not '
     'depend on message arrival order. The model is tied to the C by differential execution: the real guards on '
     'random local configurations (serial harness, ref_mpi->id = me), the real static ref_gather_node / '
-    'ref_gather_cell / ref_cell_ncell under mpiexec at np = 1,2,3,4,5,8 on generated worlds (every chunk size, '
-    'empty ranks, np > N, duplicated / missing owners). End to end (no model side): refmpi adapt at np = 1,2,3,4,5,8 '
+    'ref_gather_cell / ref_cell_ncell and the public ref_gather_by_extension (.meshb, read back by the harness) under '
+    'mpiexec at np = 1,2,3,4,5,8 on generated worlds (every chunk size, empty ranks, np > N, duplicated / missing '
+    'owners). End to end (no model side): refmpi adapt at np = 1,2,3,4,5,8 '
     'with every available partitioner, REF_VERIF_PARTITIONER_FULL, both alltoallv implementations and small reduce '
     'limits; exit status, a wall-time bound per run, and the C01 validity (no unused or duplicated vertex, no '
     'duplicated cell, conformity, positive volumes) and C02 domain oracles on the gathered output.')
